@@ -5,6 +5,7 @@ CONSTANTS
   Truncs = {"body1", "bodyhalf", "bodyminus1", "len+1", "len-1", "len0", "lenmax", "inner+", "inner-"}
   Versions = {0, 2, 256, 257, 512, 768, 769, 770, 771, 772, 1024, 65535}
   SuiteRewrites = {"empty", "unknown", "unknown_first", "odd", "ecdhe_only", "scsv"}
+  SelfMals = {"hi01", "hi80", "hiff", "lo+1", "lo-1", "zero"}
   ClientAuth = {TRUE, FALSE}
 INVARIANTS NeverCompleteAfterDeviation BenignCompletes
 CONSTRAINT Emit
